@@ -88,7 +88,7 @@ class Check(FormulaCheck):
             'nested arrays, two-row array, host variable or range, in random permutations and partitions; or one conditional aggregate with 1-3 criteria of the '
             'three forms against equal-length numeric/text criteria ranges; or one propagating aggregate with an error item of each code at each position. '
             'non-trivial = compared with the exact reference; distinct = distinct formula + bindings.')
-    ASSUMPTIONS = ('numeric items only; with several modes MODE may report any of them; GEOMEAN/HARMEAN on positive items; LARGE on a flat array; SLOPE called as ys then xs scalars, xs integers or integers in other units (x 1e-9 .. 1e6)',
+    ASSUMPTIONS = ('numeric items only; with several modes MODE may report any of them; GEOMEAN/HARMEAN on positive items; SLOPE called as ys then xs scalars, xs integers or integers in other units (x 1e-9 .. 1e6)',
                    'criteria are strings; comparison criteria on numeric cells, wildcard criteria on lower-case text cells; criterion numbers are read as doubles',
                    'nothing selected: 0 for SUMIF(S)/COUNTIF/MAXIFS, any error for AVERAGEIF(S)')
 
@@ -228,6 +228,11 @@ class Check(FormulaCheck):
             g = self.ev('LARGE({%s},%d)' % (','.join(L(x) for x in xs), k))
             self.expect('C11/LARGE:differs-from-definition', finite(g) and close(g, sorted(map(Fr, xs), reverse=True)[k - 1]), items=xs, k=k, got=g)
             host_list = list(xs)
+            # k-th largest is order-free: the same whatever rows the items are grouped into (a grid, a column, ragged rows)
+            cut = rnd.randint(1, max(1, len(xs) - 1))
+            for nested in ([list(xs[:cut]), list(xs[cut:])] if len(xs) > 1 else [list(xs)], [[x] for x in xs], [list(xs)]):
+                g = self.ev('LARGE(v_rows,v_k)', v_rows=nested, v_k=k)
+                self.expect('C11/LARGE:differs-from-definition:items-grouped-in-rows', finite(g) and close(g, sorted(map(Fr, xs), reverse=True)[k - 1]), items=xs, rows=nested, k=k, got=g)
             g = self.ev('LARGE(v_list,v_k)', v_list=host_list, v_k=k)
             self.expect('C11/LARGE:differs-from-definition', finite(g) and close(g, sorted(map(Fr, xs), reverse=True)[k - 1]), items=xs, k=k, got=g, host=True)
             # the very same list object named twice, and a grid whose rows are one aliased row: items count as often as they are named
@@ -326,7 +331,9 @@ class Check(FormulaCheck):
         return txt, pred, 'comparison' if op else 'bare'
 
     def text_cells(self, rnd, n):
-        words = ['apple', 'pear', 'plum', 'fig', 'kiwi', 'lime', 'date', 'nut', 'peach', 'pea', 'apricot', 'grape', 'ap', 'p']
+        # (some with characters that pattern languages other than * and ? give a meaning to: in a criterion they stand for themselves)
+        words = ['apple', 'pear', 'plum', 'fig', 'kiwi', 'lime', 'date', 'nut', 'peach', 'pea', 'apricot', 'grape', 'ap', 'p', 'a[1]x', 'a1x', 'p[a-z]', 'pa', 'fig.', 'figs', 'nut+', 'k(i)wi', '[!p]ea',
+                 'lime]', 'x^y', 'a{2}']
         return [rnd.choice(words) for _ in range(n)]
 
     def arr(self, cells, rnd):
